@@ -20,6 +20,11 @@ def run_property(prop, repo_root, tier, seed=0, only_rule=None, verbose=False, o
     ctx = Ctx(prop, repo, tier=tier, seed=seed, only_rule=only_rule, verbose=verbose, quiet=quiet)
     mod = importlib.import_module('sa.rules.' + prop.lower())
     explanation = mod.run(ctx)
+    if getattr(repo, 'renames', None):
+        ctx.assumptions = list(getattr(ctx, 'assumptions', None) or []) + \
+            ['identifiers mapped back to their pinned names before the analysis (sa/rename.py): ' + '; '.join(repo.renames[:40])]
+        if not quiet:
+            print('note: %d identifier(s) mapped back to pinned names: %s' % (len(repo.renames), '; '.join(repo.renames[:6])))
     if ctx.floor_failures and not ctx.split_known()[0]:
         raise AnalysisError('; '.join(ctx.floor_failures))
     if not write:
@@ -56,6 +61,17 @@ def main(argv):
         only = rp['rule']
         verbose = True
         print('replaying %s rule %s instance %s' % (rp['property'], rp['rule'], rp['key']))
+    # a watchdog: an analysis that does not end (path explosion on a tree the rules were not written for) is "undecided", never a hang
+    try:
+        import signal
+        limit = int(os.environ.get('VERIF_ANALYSIS_TIMEOUT', '1800' if tier == 'thorough' else '600'))
+
+        def _too_long(signum, frame):
+            raise AnalysisError('analysis did not finish within %d s (path explosion?)' % limit)
+        signal.signal(signal.SIGALRM, _too_long)
+        signal.alarm(limit)
+    except (ValueError, AttributeError, OSError):
+        pass
     try:
         if a.dry:
             code, ctx = run_property(prop, a.repo, tier, seed, only, verbose, write=False, quiet=True)
